@@ -241,8 +241,12 @@ impl StreamFlowController {
             return;
         }
 
+        // Only reserve connection window that the stream window allows us to use. The reserved
+        // window is reported as the final size if the stream gets reset, so it must never
+        // exceed the limit the peer has set for the stream.
         let missing_connection_window = self
             .highest_requested_connection_flow_control_window
+            .min(self.max_stream_data)
             .saturating_sub(self.acquired_connection_flow_controller_window);
 
         if missing_connection_window > VarInt::from_u32(0) {
@@ -387,7 +391,7 @@ impl OutgoingDataFlowController for StreamFlowController {
         );
         self.try_acquire_connection_window();
 
-        if end_offset > self.acquired_connection_flow_controller_window {
+        if end_offset.min(self.max_stream_data) > self.acquired_connection_flow_controller_window {
             // Can't send due to being blocked on the connection flow control window
             self.state = StreamFlowControllerState::BlockedOnConnectionWindow;
         }
